@@ -142,7 +142,7 @@ async fn run_case(spec: &CaseSpec) -> CaseOut {
 	if spec.delays && !spec.real_time {
 		install_thread_delay_hook(spec.seed, 70, 8);
 	}
-	let (client, mut srv) = client(ClientCfg { string_ids: spec.string_ids, ping_interval: spec.ping_ms.map(Duration::from_millis), ..Default::default() });
+	let (client, mut srv) = client(ClientCfg { string_ids: spec.string_ids, ping_interval: spec.ping_ms.map(Duration::from_millis), build_path: ((spec.seed >> 19) % 4) as u8, ..Default::default() });
 	*srv.ctl.receive_in_pieces.lock().unwrap() = spec.receive_pieces_ms.map(Duration::from_millis);
 	if spec.linger_ms > 0 {
 		*srv.ctl.linger_after_send.lock().unwrap() = Some(Duration::from_millis(spec.linger_ms));
